@@ -39,8 +39,13 @@ def _cw_tri(a):
 def items(tier):
     sol = [a for a in L.solids(tier) if not _has(a, ("translate", "rotate")) and not _cw_tri(a)]
     out = [{"name": G.show(L.B(a)), "ast": a, "tier": tier} for a in L.dedupe(sol)]
-    for a, side in ((L.I01, "bleft"), (L.I01, "bright"), (L.I_MOVE, "bleft"), (L.I_MOVE, "bright"), (L.I_GROW, "bright")):
-        out.append({"name": G.show({"k": side, "a": a}), "ast": a, "tier": tier, "side": side})
+    # very thin intervals (the two end points are closer than any absolute tolerance a developer might pick); constant
+    # ones only: the step h of the oracle follows the hull of the shape over all parameter rows
+    THIN = [L.I(0, 5e-4), L.I(-2e-4, 3e-4), L.I(0, 2e-5)]
+    out += [{"name": G.show(L.B(a)), "ast": a, "tier": tier, "thin": True} for a in THIN]
+    for a, side in ((L.I01, "bleft"), (L.I01, "bright"), (L.I_MOVE, "bleft"), (L.I_MOVE, "bright"), (L.I_GROW, "bright"),
+                    (THIN[0], "bleft"), (THIN[0], "bright"), (THIN[1], "bright")):
+        out.append({"name": G.show({"k": side, "a": a}), "ast": a, "tier": tier, "side": side, "thin": any(a is t_ for t_ in THIN)})
     for shape in ("tetra", "box"):
         for winding in ("out", "in"):
             for source in ("arrays", "file"):
@@ -139,6 +144,8 @@ def run_item(item):
     box = hull_box(a, thetas)
     scale = scale_of(box)
     h = 1e-3 * scale
+    if item.get("thin"):
+        h = 1e-3 * float(np.min(box[:, 1] - box[:, 0]))      # shapes far smaller than the unit scale: step relative to the shape
     var, dim = G.space_vars(a)[0]
     _lv = G.leaves(a)
     lvs = [lf for lf, _ in _lv]
